@@ -195,8 +195,8 @@ fn curve_work<G: Cv>(progs: &[&Program], o: &Opts, start: std::time::Instant, re
     // smallest bases get the pair alphabet and depth 2
     let mut order: Vec<usize> = (0..bases.len()).collect();
     order.sort_by_key(|i| (bases[*i].parts.l.len(), bases[*i].prog.total_ops(), *i));
-    let n_pairs = if o.tier == Tier::Quick { 4 } else { 24 };
-    let n_depth2 = if o.tier == Tier::Quick { 1 } else { 3 };
+    let n_pairs = if o.tier == Tier::Quick { 4 } else { 48 };
+    let n_depth2 = if o.tier == Tier::Quick { 1 } else { 5 };
     for (rank, bi) in order.iter().enumerate() {
         let b = &bases[*bi];
         tasks.push((*bi, DevSel::None));
@@ -354,9 +354,12 @@ pub fn main(o: &Opts) -> i32 {
         Tier::Quick => program_space2(1, 1, 0).into_iter().enumerate().filter(|(i, _)| i % 3 == 0).map(|(_, p)| p).collect(),
         Tier::Thorough => program_space2(2, 1, 0),
     };
-    progs.extend(size_family(if o.tier == Tier::Quick { 2 } else { 4 }).into_iter().map(|x| x.3));
+    progs.extend(size_family(if o.tier == Tier::Quick { 2 } else { 5 }).into_iter().map(|x| x.3));
+    if o.tier == Tier::Thorough {
+        progs.extend(extra_programs());
+    }
     progs.push(Program::parse("C C M Kd R[Z M Kc T] R[Z A Kd]").unwrap());
-    rep.bounds = json!({"base_programs": progs.len(), "space": if o.tier == Tier::Quick { "every third program of P(1,1) + S(2) (+ bad-witness variants)" } else { "P(2,1) + S(4) (+ bad-witness variants)" },
+    rep.bounds = json!({"base_programs": progs.len(), "space": if o.tier == Tier::Quick { "every third program of P(1,1) + S(2) (+ bad-witness variants)" } else { "P(2,1) + S(5) + extras (+ bad-witness variants)" },
         "depth1": "every element of the algebraic deviation alphabet keeping |L|=|R| (identity, negation, +B, +B_blinding, (+T8, T8), scalar 0/neg/+delta, round edits); same-type copies and swaps on the smallest bases",
         "depth2": "all unordered pairs of depth-1 deviations on the smallest bases",
         "challenge_weighted": "on the smallest honest bases: every ordered pair of scalar fields (t_x, t_x_blinding, e_blinding, a, b): first += 1, second += +-c^(+-1) for every challenge c the verifier derived for the unmodified proof (forks included)",
